@@ -275,6 +275,7 @@ type Group struct {
 	Options      []Opt   `json:"options,omitempty"`
 	Plain        []Plain `json:"plain,omitempty"`
 	Groups       []Group `json:"groups,omitempty"`
+	RawTag       *string `json:"rawtag,omitempty"` // tag of the group's struct field, verbatim (nested groups only)
 }
 
 type PosArg struct {
@@ -307,6 +308,7 @@ type Cmd struct {
 	G        Group       `json:"g"`
 	Pos      *Positional `json:"pos,omitempty"`
 	Cmds     []Cmd       `json:"cmds,omitempty"`
+	RawTag   *string     `json:"rawtag,omitempty"` // tag of the command's struct field, verbatim (by-tag commands only)
 }
 
 type Decl struct {
@@ -646,7 +648,11 @@ func (bl *builder) groupType(g *Group, host *Cmd) reflect.Type {
 		if sg.Hidden {
 			tagKV(&sb, "hidden", "yes")
 		}
-		fs = append(fs, reflect.StructField{Name: sg.Field, Type: bl.groupType(sg, nil), Tag: reflect.StructTag(sb.String())})
+		tag := sb.String()
+		if sg.RawTag != nil {
+			tag = *sg.RawTag
+		}
+		fs = append(fs, reflect.StructField{Name: sg.Field, Type: bl.groupType(sg, nil), Tag: reflect.StructTag(tag)})
 	}
 	if host != nil {
 		if host.Pos != nil {
@@ -686,7 +692,11 @@ func (bl *builder) groupType(g *Group, host *Cmd) reflect.Type {
 			if c.Hidden {
 				tagKV(&sb, "hidden", "yes")
 			}
-			fs = append(fs, reflect.StructField{Name: c.Field, Type: bl.cmdType(c), Tag: reflect.StructTag(sb.String())})
+			tag := sb.String()
+			if c.RawTag != nil {
+				tag = *c.RawTag
+			}
+			fs = append(fs, reflect.StructField{Name: c.Field, Type: bl.cmdType(c), Tag: reflect.StructTag(tag)})
 		}
 	}
 	return reflect.StructOf(fs)
